@@ -1459,12 +1459,15 @@ fn wmo_roundtrip(seed: u64) -> String {
             for i in 0..ngrp {
                 let f = i as f32;
                 r.groups.push(WmoGroupInfo { flags: WmoGroupFlags::from_bits_truncate(1 << i), bounding_box: BoundingBox { min: Vec3 { x: -f, y: -f, z: -f }, max: Vec3 { x: f, y: f, z: f } },
-                    name: format!("grp{}_{}", "n".repeat(i), i) });
+                    // last round: a later name is a proper prefix / inner substring of an earlier one (offset tables must not alias them)
+                    name: if round == 3 { ["Hall_Main", "Hall", "Tower", "Main"][i].to_string() } else { format!("grp{}_{}", "n".repeat(i), i) } });
             }
             if round > 0 { r.doodad_sets.push(WmoDoodadSet { name: "Set_Default".into(), start_doodad: 0, n_doodads: 0 }); }
             r.header.ambient_color = Color { r: 0x11 + round as u8, g: 0x22, b: 0x33, a: 0x44 };
             for i in 0..round as u16 { r.portal_references.push(WmoPortalReference { portal_index: i, group_index: 0x0102 + i, side: if i % 2 == 0 { 0xFFFF } else { 0x1234 } }); }
             r.header.n_materials = nmat as u32; r.header.n_groups = ngrp as u32; r.header.n_doodad_sets = r.doodad_sets.len() as u32;
+            // stale stored counts (an edited root): the written counts must be measured from the lists
+            if round == 2 { r.header.n_doodad_names = 7; r.header.n_doodad_defs = 5; r.header.n_lights = 3; }
             let desc = format!("root for {:?}: {} textures {:?}, {} materials, groups {:?}, {} doodad sets, ambient {:?}, portal refs {:?}", v, ntex, r.textures, nmat, r.groups.iter().map(|g| g.name.clone()).collect::<Vec<_>>(), r.doodad_sets.len(), r.header.ambient_color, r.portal_references);
             let mut out = std::io::Cursor::new(Vec::new());
             match catch(std::panic::AssertUnwindSafe(|| WmoWriter::new().write_root(&mut out, &r, v))) {
